@@ -30,6 +30,9 @@ def _task(t):
         if kind == "A":
             from pyvc.verify import verify
             return ("A", arg, verify(arg, second_opinion=opts.get("cvc5", False), timeout_ms=opts.get("timeout_ms")))
+        if kind == "F":
+            from pyvc.verify import verify
+            return ("F", arg, verify(arg, timeout_ms=opts.get("timeout_ms"), only_kinds={"frame"}))
         if kind == "C":
             return ("C", arg, run_contract_search(arg, tier, seed))
         if kind == "B":
@@ -196,6 +199,13 @@ def cmd_check(pid, tier, seed, opts):
             tasks.append(("C", c.key, tier, seed, opts))
     for b in bchecks:
         tasks.append(("B", b.id, tier, seed, opts))
+    frame_units = []
+    if meta.get("frames_of_all_contracts"):
+        # purity, per function: "never modifies the arrays passed to it" is the frame:/fresh: obligation of EVERY contracted
+        # kernel (whatever property the contract was written for); proved here for all inputs
+        frame_units = [c for c in CONTRACTS.values() if not c.trusted and c.mode == "proof" and c not in contracts]
+        for c in frame_units:
+            tasks.append(("F", c.key, tier, seed, opts))
     from pyvc.contract import load_errors_for
     lerr = load_errors_for(pid)
     if lerr:
@@ -226,7 +236,8 @@ def cmd_check(pid, tier, seed, opts):
                                                 "samples": [], "truncated": True, "capped": True}))
     finally:
         pool.terminate()
-    A = {k: r for kind, k, r in results if kind == "A"}
+    A = {k: r for kind, k, r in results if kind in ("A", "F")}
+    contracts = list(contracts) + frame_units
     C = {k: r for kind, k, r in results if kind == "C"}
     Bn = {k: r for kind, k, r in results if kind == "B"}
     # retry obligations that came back `unknown` once, alone, with a larger budget (load robustness)
